@@ -33,3 +33,55 @@ FORGET_SITES = {
     "CircularBuffer::extend_from_slice::write_uninit_slice_cloned": (1, "forgets the Guard after all clones succeeded (GUARD1)"),
     "<CircularBuffer<N, T> as From<[T; M]>>::from": (1, "ManuallyDrop around the source array whose elements are moved/destroyed by hand (FROMARR1, PS2)"),
 }
+
+# functions that bit-copy, swap or move elements out of storage: (max sites, reason)
+BITCOPIES_T = {
+    "CircularBuffer::make_contiguous": (1, "rotate_left of the whole array to make the contents contiguous (O2 under C20)"),
+    "CircularBuffer::push_back": (1, "mem::replace of the front element when full: displaced element is returned (OWN1)"),
+    "CircularBuffer::push_front": (1, "mem::replace of the back element when full: displaced element is returned (OWN1)"),
+    "CircularBuffer::pop_back": (1, "assume_init_read of the back slot, followed by dec_size (OCC)"),
+    "CircularBuffer::pop_front": (1, "assume_init_read of the front slot, followed by dec_size + inc_start (OCC)"),
+    "CircularBuffer::remove": (5, "assume_init_read of the removed slot, then up to 4 ptr::copy to close the gap, then dec_size (OCC)"),
+    "CircularBuffer::swap": (1, "swap_nonoverlapping of two occupied slots, count 1"),
+    "<CircularBuffer<N, T> as From<[T; M]>>::from": (1, "copy_nonoverlapping of the array suffix into fresh storage (FROMARR1)"),
+    "Drain::read": (1, "ptr::read of a slot in the drained range; called only from next/next_back (DRN1 f)"),
+    "<Drain<N, T> as Drop>::drop": (1, "ptr::copy back-fill of the hole; cannot unwind (DRN1 d)"),
+}
+
+# functions containing `unsafe` code or declared `unsafe fn` (closures under their enclosing fn)
+UNSAFE_FNS = {
+    "<<Drain<N, T> as Drop>::drop::Dropper<T> as Drop>::drop": "drop_in_place of an un-yielded segment",
+    "<CircularBuffer::drop_range::Dropper<T> as Drop>::drop": "drop_in_place of an occupied segment",
+    "<CircularBuffer::extend_from_slice::write_uninit_slice_cloned::Guard<T> as Drop>::drop": "drop_in_place of dst[..initialized]",
+    "<CircularBuffer<N, T> as From<[T; M]>>::from": "uninit array, bit-copy, prefix destruction",
+    "<Drain<N, T> as DoubleEndedIterator>::next_back::{closure}": "calls unsafe fn Drain::read",
+    "<Drain<N, T> as Iterator>::next::{closure}": "calls unsafe fn Drain::read",
+    "<Drain<N, T> as Drop>::drop": "NonNull::as_mut, ptr::copy back-fill",
+    "CircularBuffer::as_mut_slices": "slice_assume_init_mut on the occupied ranges (REINT1)",
+    "CircularBuffer::as_slices": "slice_assume_init_ref on the occupied ranges (REINT1)",
+    "CircularBuffer::back": "assume_init_ref under size > 0 (ACC2)",
+    "CircularBuffer::back_mut": "assume_init_mut under size > 0 (ACC2)",
+    "CircularBuffer::boxed": "raw header writes + Box::assume_init (CTOR1)",
+    "CircularBuffer::drop_range": "unsafe fn: caller guarantees the range is occupied (PS1)",
+    "CircularBuffer::front": "assume_init_ref under size > 0 (ACC2)",
+    "CircularBuffer::front_mut": "assume_init_mut under size > 0 (ACC2)",
+    "CircularBuffer::get": "assume_init_ref under index < size (ACC2)",
+    "CircularBuffer::get_mut": "assume_init_mut under index < size (ACC2)",
+    "CircularBuffer::make_contiguous": "slice_assume_init_mut on the occupied range (REINT1)",
+    "CircularBuffer::new": "uninit array of MaybeUninit (stable arm)",
+    "CircularBuffer::pop_back": "assume_init_read (OCC)",
+    "CircularBuffer::pop_front": "assume_init_read (OCC)",
+    "CircularBuffer::push_back": "assume_init_mut of the front slot when full (ACC2)",
+    "CircularBuffer::push_front": "assume_init_mut of the back slot when full (ACC2)",
+    "CircularBuffer::remove": "assume_init_read + ptr::copy (OCC)",
+    "CircularBuffer::swap": "swap_nonoverlapping",
+    "CircularBuffer::truncate_back": "calls unsafe fn drop_range (PS1)",
+    "CircularBuffer::truncate_front": "calls unsafe fn drop_range (PS1)",
+    "CircularSlicePtr::as_mut_ptr": "pointer offset inside the array",
+    "CircularSlicePtr::as_ptr": "pointer offset inside the array",
+    "Drain::as_mut_slices": "NonNull::as_mut + raw slice cast of the un-yielded range (REINT1)",
+    "Drain::as_slices": "NonNull::as_ref + raw slice cast of the un-yielded range (REINT1)",
+    "Drain::read": "unsafe fn: ptr::read of a drained slot",
+    "slice_assume_init_mut": "unsafe fn: [MaybeUninit<T>] -> [T]",
+    "slice_assume_init_ref": "unsafe fn: [MaybeUninit<T>] -> [T]",
+}
